@@ -342,6 +342,7 @@ void gv::generate(const std::string& tier, uint64_t seed) {
     // series kernel against the formula model: first quadrant
     if (use_series(e.f)) {
       double kl = ks == 0 ? std::fabs(lat) : r.pick(std::vector<double>{r.range(0, 90), r.range(0, 90), 0.0, 90.0, 1e-10, 89.999999, 45.0}), kd = r.pick(std::vector<double>{r.range(0, 60), r.range(0, 35), 0.0, 3.0, 1e-10, 35.0, 60.0});
+      if (!(kl <= 90)) kl = 90;
       run("tmkf", {hx(e.a), hx(e.f), hx(kl), hx(kd)}); stratum("kernel-fwd");
       double xi = r.pick(std::vector<double>{r.range(0, 1.5707), r.range(0, 1.5707), 0.0, 1e-10, 1.5707963267948966, 0.7}), eta = r.pick(std::vector<double>{r.range(0, 1.2), r.range(0, 0.6), 0.0, 1e-10, 0.05});
       run("tmkr", {hx(e.a), hx(e.f), hx(xi), hx(eta)}); stratum("kernel-rev");
